@@ -15,6 +15,7 @@ CONSTANTS
   Menu = {{}, {1}, {0, 3}, {0, 2, 3}, {1, 2, 3}}
   Moods = {"quiet", "plain", "plain", "reorg", "reorg"}
   MaxReorgs = 1
+  Focus = FALSE
   Fams = {"bids"}
 INVARIANTS Emit BidsBounded
 CHECK_DEADLOCK FALSE
